@@ -121,7 +121,8 @@ def run_chain(cfg, plan, solver_fault=None):
             tb = traceback.extract_tb(e.__traceback__)
             mici_frames = [f for f in tb if "/mici/" in f.filename]
             where = f"{mici_frames[-1].name}" if mici_frames else "?"
-            err = (type(e).__name__, repr(e)[:160], where)
+            err = (type(e).__name__, repr(e)[:160], where,
+                   ">".join(f.name for f in mici_frames))
             new, stats = None, None
         finally:
             plan.armed = False
@@ -156,9 +157,9 @@ def judge(cfg, report, plan, acc, inject):
         return  # faults are only armed inside the integration transition
     for it, rec in enumerate(report["iterations"]):
         if rec["err"] is not None:
-            ename, msg, where = rec["err"]
+            ename, msg, where, path = rec["err"]
             viol("exception_escaped", f"escaped:{ename}@{where}", msg,
-                 "Transition.sample returns", iteration=it,
+                 "Transition.sample returns", iteration=it, mici_frames=path,
                  in_solver=plan.fired[3] if plan.fired else None)
             return
         if not (np.all(np.isfinite(rec["pos"])) and np.all(np.isfinite(rec["mom"]))):
